@@ -406,7 +406,7 @@ func genC05(g *gen) {
 			shs = append(shs, r4)
 		}
 	}
-	scripts := []string{"Nd", "rNd", "nnxNd", "nrnnfNd", "rnnnxNd", "cncncnd", "rcncncnd", "nnrnnrxN"}
+	scripts := []string{"Nd", "rNd", "nnxNd", "nrnnfNd", "rnnnxNd", "cncncnd", "rcncncnd", "nnrnnrxN", "nsnd", "Cd", "nLd", "rCdsn"}
 	for _, sh := range shs {
 		for _, ord := range orders {
 			// as built
